@@ -105,7 +105,7 @@ def bound_values_ok(self, val, values, n):
 SPEC("pane.classes", "PaneConverter.try_convert_struct",
      shapes=STRUCT_SHAPES,
      requires=[lambda self, val: wf_Pane(self), lambda self, val: is_data_map(val)],
-     returns_iff=(lambda self, val: ACC_PaneStruct(self, val), ["C15", "C01", "C03", "C14"]),
+     returns_iff=(lambda self, val: ACC_PaneStruct(self, val), ["C15", "C01", "C03", "C14", "C05", "C06"]),
      note="default factories are assumed not to raise",
      ensures=[
          # the instance is built from: converted values of the bound fields, defaults (fresh factory products) for the
@@ -118,7 +118,7 @@ SPEC("pane.classes", "PaneConverter.try_convert_struct",
                  mhas(as_map(D), sat(self.fields, i).name)
                  and mget(as_map(D), sat(self.fields, i).name) == default_value(sat(self.fields, i))))
              and forall(range(slen(self.fields)), lambda i: shas(as_set(S), sat(self.fields, i).name) == bound_by(self, val, i, mlen(val))))),
-          ["C14", "C01"], "val")],
+          ["C14", "C01", "C05", "C06"], "val")],
      raises=(lambda self, val, exc: exc_is(exc, ParseInterrupt), ["C04", "C14"]),
      invariants={
          0: lambda it, values, self, val:
@@ -149,7 +149,7 @@ def ACC_PaneTuple(self, val):
 SPEC("pane.classes", "PaneConverter.try_convert_tuple",
      shapes=TUPLE_SHAPES,
      requires=[lambda self, val: wf_Pane(self), lambda self, val: is_data_seq(val)],
-     returns_iff=(lambda self, val: ACC_PaneTuple(self, val), ["C15", "C01", "C03", "C02"]),
+     returns_iff=(lambda self, val: ACC_PaneTuple(self, val), ["C15", "C01", "C03", "C02", "C05", "C06"]),
      raises=(lambda self, val, exc: exc_is(exc, ParseInterrupt), ["C04", "C14"]),
      invariants={0: lambda it, vals, self, val: slen(vals) == it and
                  forall(range(it), lambda j: acc(sat(self.field_converters, init_pos(self, j)), sat(val, j))
@@ -188,7 +188,7 @@ def ACC_Pane(self, val):
 SPEC("pane.classes", "PaneConverter.try_convert",
      shapes=PANE_SHAPES,
      requires=lambda self, val: wf_Pane(self),
-     returns_iff=(lambda self, val: ACC_Pane(self, val), ["C15", "C02", "C01", "C03"]),
+     returns_iff=(lambda self, val: ACC_Pane(self, val), ["C15", "C02", "C01", "C03", "C05", "C06"]),
      raises=(lambda self, val, exc: exc_is(exc, ParseInterrupt), ["C04"]))
 
 
